@@ -13,3 +13,9 @@
  */
 #define ATOMIC_STATIC_INLINE
 #include "parsec/sys/atomic.h"
+
+#if defined(PARSEC_VERIF)
+/* Verification hooks: NULL unless a verification harness installs a handler */
+parsec_verif_point_fn_t parsec_verif_point_fn = (parsec_verif_point_fn_t)0;
+parsec_verif_event_fn_t parsec_verif_event_fn = (parsec_verif_event_fn_t)0;
+#endif  /* defined(PARSEC_VERIF) */
